@@ -439,6 +439,37 @@ Proof. intros (_ & H & _). cbn. now rewrite H. Qed.
 Definition new_frame (is_if : bool) (l e : blocktype) : frame :=
   {| fr_is_if := is_if; fr_label := l; fr_end := e; fr_unreachable := false; fr_opds := [] |}.
 
+Lemma parse_seq_basic f b rest : parse_seq (S f) (OBasic b :: rest) =
+  match parse_seq f rest with Some (is, d, r) => Some (Basic b :: is, d, r) | None => None end.
+Proof. reflexivity. Qed.
+Lemma parse_seq_block f bt rest : parse_seq (S f) (OBlock bt :: rest) =
+  match parse_seq f rest with
+  | Some (body, false, r) =>
+      match parse_seq f r with Some (is, d, r') => Some (Block bt body :: is, d, r') | None => None end
+  | _ => None
+  end.
+Proof. reflexivity. Qed.
+Lemma parse_seq_loop f bt rest : parse_seq (S f) (OLoop bt :: rest) =
+  match parse_seq f rest with
+  | Some (body, false, r) =>
+      match parse_seq f r with Some (is, d, r') => Some (Loop bt body :: is, d, r') | None => None end
+  | _ => None
+  end.
+Proof. reflexivity. Qed.
+Lemma parse_seq_if f bt rest : parse_seq (S f) (OIf bt :: rest) =
+  match parse_seq f rest with
+  | Some (thn, false, r) =>
+      match parse_seq f r with Some (is, d, r') => Some (If bt thn [] :: is, d, r') | None => None end
+  | Some (thn, true, r) =>
+      match parse_seq f r with
+      | Some (els, false, r2) =>
+          match parse_seq f r2 with Some (is, d, r') => Some (If bt thn els :: is, d, r') | None => None end
+      | _ => None
+      end
+  | None => None
+  end.
+Proof. reflexivity. Qed.
+
 (** ** The flat run reconstructs the structure and a typing derivation *)
 Lemma flat_sound c : forall n ops s F K sf,
   length ops <= n -> vs_ctrls s = F :: K -> vrun_strict c s ops = Some sf -> vs_ctrls sf = [] ->
@@ -475,7 +506,7 @@ Proof.
     assert (HL1' : length rest1 <= n) by lia.
     destruct (IH _ _ _ _ _ HL1' HC3 HR2 HF) as (is2 & d2 & rest2 & s' & F' & dl2 & P2 & HC' & HS2 & HT2 & HD2 & HR' & HL2).
     exists (Block bt is1 :: is2), d2, rest2, s', F', dl2.
-    split. { cbn [map fst]. cbn [parse_seq]. rewrite P1. rewrite P2. reflexivity. }
+    split. { cbn [map fst]. rewrite parse_seq_block, P1, P2. reflexivity. }
     split; auto. split. { eapply shape_trans; [|exact HS2]. apply shape_with_opds, shape_refl. }
     split.
     { intros ts' Hts'. destruct (HT2 _ Hts') as (ts3 & Hts3 & HSeq). cbn [with_opds fr_opds fr_unreachable] in Hts3.
@@ -496,7 +527,7 @@ Proof.
     assert (HL1' : length rest1 <= n) by lia.
     destruct (IH _ _ _ _ _ HL1' HC3 HR2 HF) as (is2 & d2 & rest2 & s' & F' & dl2 & P2 & HC' & HS2 & HT2 & HD2 & HR' & HL2).
     exists (Loop bt is1 :: is2), d2, rest2, s', F', dl2.
-    split. { cbn [map fst]. cbn [parse_seq]. rewrite P1. rewrite P2. reflexivity. }
+    split. { cbn [map fst]. rewrite parse_seq_loop, P1, P2. reflexivity. }
     split; auto. split. { eapply shape_trans; [|exact HS2]. apply shape_with_opds, shape_refl. }
     split.
     { intros ts' Hts'. destruct (HT2 _ Hts') as (ts3 & Hts3 & HSeq). cbn [with_opds fr_opds fr_unreachable] in Hts3.
@@ -511,7 +542,7 @@ Proof.
     destruct (IH _ _ _ _ _ HL' HC1 HR1 HF) as (is1 & d1 & rest1 & s1' & F0' & dl1 & P1 & HC1' & HS1 & HT1 & HD1 & HR1' & HL1).
     destruct (vrun_strict_cons _ _ _ _ _ _ _ HC1' HR1') as (s3 & EV2 & HR2).
     pose proof HS1 as (HI1 & _ & HE). cbn in HE, HI1.
-    rewrite (map_label_shape _ _ _ HSp) in HT1.
+    pose proof HSp as (_ & HLp & _). cbn [map] in HT1. rewrite HLp in HT1.
     assert (HL1' : length rest1 <= n) by lia.
     destruct d1.
     + (* else branch present *)
@@ -519,7 +550,7 @@ Proof.
       assert (HC3 : vs_ctrls (push_ctrl false bt bt s2) = new_frame false bt bt :: Fp :: K) by (cbn; now rewrite HC2).
       destruct (IH _ _ _ _ _ HL1' HC3 HR2 HF) as (is2 & d2 & rest2 & s3' & Fe' & dl2 & P2 & HC3' & HS3 & HT3 & HD2 & HR3' & HL2).
       destruct (vrun_strict_cons _ _ _ _ _ _ _ HC3' HR3') as (s5 & EV4 & HR4).
-      rewrite (map_label_shape _ _ _ HSp) in HT3.
+      cbn [map] in HT3. rewrite HLp in HT3.
       destruct d2.
       { destruct (else_step _ _ _ _ _ _ HC3' HD2 EV4) as [HI _]. destruct HS3 as (HS3 & _). rewrite HS3 in HI. discriminate. }
       destruct (end_step _ _ _ _ _ _ HC3' HD2 EV4) as (s4 & HC4 & -> & HCn2 & _).
@@ -528,25 +559,25 @@ Proof.
       assert (HL2' : length rest2 <= n) by lia.
       destruct (IH _ _ _ _ _ HL2' HC5 HR4 HF) as (is3 & d3 & rest3 & s' & F' & dl3 & P3 & HC' & HS5 & HT5 & HD3 & HR' & HL3).
       exists (If bt is1 is2 :: is3), d3, rest3, s', F', dl3.
-      split. { cbn [map fst]. cbn [parse_seq]. rewrite P1. rewrite P2. rewrite P3. reflexivity. }
+      split. { cbn [map fst]. rewrite parse_seq_if, P1, P2, P3. reflexivity. }
       split; auto. split. { eapply shape_trans; [exact HSp|]. eapply shape_trans; [|exact HS5]. apply shape_with_opds, shape_refl. }
       split.
       { intros ts' Hts'. destruct (HT5 _ Hts') as (ts5 & Hts5 & HSeq). cbn [with_opds fr_opds fr_unreachable] in Hts5.
         apply conc_bt_inv in Hts5. destruct Hts5 as (ts0 & -> & Hts0). exists (T_i32 :: ts0). split; auto.
-        econstructor; [|rewrite (map_label_shape _ _ _ HSp) in HSeq; exact HSeq]. constructor.
+        econstructor; [|cbn [map with_opds fr_label] in HSeq; rewrite HLp in HSeq; exact HSeq]. constructor.
         - destruct (HT1 _ HCn) as (tsb & Hb & HSb). cbn in Hb. apply conc_nil_false in Hb. subst. exact HSb.
         - destruct (HT3 _ HCn2) as (tsb & Hb & HSb). cbn in Hb. apply conc_nil_false in Hb. subst. exact HSb. }
       split; auto. split; auto. cbn [length]. lia.
     + (* no else: the result type must be empty *)
       destruct (end_step _ _ _ _ _ _ HC1' HD1 EV2) as (s2 & HC2 & -> & HCn & HN). rewrite HE in *.
-      specialize (HN HI1). subst bt. cbn [push_opds] in HR2.
+      specialize (HN HI1). rewrite HN in *. clear HN. cbn [push_opds] in HR2.
       destruct (IH _ _ _ _ _ HL1' HC2 HR2 HF) as (is2 & d2 & rest2 & s' & F' & dl2 & P2 & HC' & HS2 & HT2 & HD2 & HR' & HL2).
       exists (If None is1 [] :: is2), d2, rest2, s', F', dl2.
-      split. { cbn [map fst]. cbn [parse_seq]. rewrite P1. rewrite P2. reflexivity. }
+      split. { cbn [map fst]. rewrite parse_seq_if, P1, P2. reflexivity. }
       split; auto. split. { eapply shape_trans; eauto. }
       split.
       { intros ts' Hts'. destruct (HT2 _ Hts') as (ts3 & Hts3 & HSeq). exists (T_i32 :: ts3). split; auto.
-        econstructor; [|rewrite (map_label_shape _ _ _ HSp) in HSeq; exact HSeq].
+        econstructor; [|cbn [map with_opds fr_label] in HSeq; rewrite HLp in HSeq; exact HSeq].
         apply (T_If _ None is1 [] ts3).
         - destruct (HT1 _ HCn) as (tsb & Hb & HSb). cbn in Hb. apply conc_nil_false in Hb. subst. exact HSb.
         - constructor. }
@@ -555,7 +586,7 @@ Proof.
     cbn in EV. destruct (vstep_basic_sound _ _ _ _ _ _ _ HC EV) as (F1 & HC1 & HS1 & HT1).
     destruct (IH _ _ _ _ _ HL' HC1 HR1 HF) as (is1 & d1 & rest1 & s' & F' & dl1 & P1 & HC' & HS2 & HT2 & HD1 & HR' & HL1).
     exists (Basic b :: is1), d1, rest1, s', F', dl1.
-    split. { cbn [map fst]. cbn [parse_seq]. rewrite P1. reflexivity. }
+    split. { cbn [map fst]. rewrite parse_seq_basic, P1. reflexivity. }
     split; auto. split. { eapply shape_trans; eauto. }
     split.
     { intros ts' Hts'. destruct (HT2 _ Hts') as (ts2 & Hts2 & HSeq). destruct (HT1 _ Hts2) as (ts & Hts & HB).
@@ -563,3 +594,128 @@ Proof.
       rewrite (map_label_shape _ _ _ HS1) in HSeq. exact HSeq. }
     split; auto. split; auto. cbn [length]. lia.
 Qed.
+
+(** ** Function level soundness *)
+Definition tctx_of (c : vctx) : tctx :=
+  {| tc_types := vc_types c;
+     tc_funcs := map (fun ti => nth ti (vc_types c) dummy_ft) (vc_funcs c);
+     tc_globals := vc_globals c; tc_locals := vc_locals c;
+     tc_memory := vc_memory c; tc_table := vc_table c;
+     tc_labels := []; tc_return := vc_return c |}.
+
+Lemma push_opds_nil bt s : vs_ctrls s = [] -> vs_ctrls (push_opds bt s) = [].
+Proof. intros H. destruct bt; cbn [push_opds]; auto. unfold push_opd. rewrite H. reflexivity. Qed.
+
+Theorem validate_strict_sound c ops h :
+  validate_func_strict c ops = Some h ->
+  exists is, structure_body (map fst ops) = Some is /\ body_ok (tctx_of c) is.
+Proof.
+  unfold validate_func_strict. destruct (vrun_strict c (vinit c) ops) as [sf|] eqn:HR; [|discriminate].
+  destruct (vs_ctrls sf) eqn:HF; [|discriminate]. intros _.
+  assert (HC : vs_ctrls (vinit c) = new_frame false (vc_return c) (vc_return c) :: []) by reflexivity.
+  destruct (flat_sound c (length ops) ops _ _ _ _ (le_n _) HC HR HF)
+    as (is & d & rest & s' & F' & dl & P & HC' & HS & HT & HD & HR' & HL).
+  destruct (vrun_strict_cons _ _ _ _ _ _ _ HC' HR') as (s3 & EV & HR2).
+  destruct d.
+  { destruct (else_step _ _ _ _ _ _ HC' HD EV) as [HI _]. destruct HS as (HS & _). rewrite HS in HI. discriminate. }
+  destruct (end_step _ _ _ _ _ _ HC' HD EV) as (s2 & HC2 & -> & HCn & _).
+  pose proof (push_opds_nil (fr_end F') _ HC2) as HC3.
+  destruct rest as [|o r]; [|cbn [vrun_strict] in HR2; rewrite HC3 in HR2; discriminate].
+  exists is. split.
+  - unfold structure_body. rewrite map_length, P. reflexivity.
+  - destruct (HT _ HCn) as (ts & Hts & HSeq). cbn in Hts. apply conc_nil_false in Hts. subst ts.
+    destruct HS as (_ & _ & HE). cbn in HE. rewrite HE in HSeq. exact HSeq.
+Qed.
+
+Lemma vrun_strict_of_vrun c : forall ops s sf,
+  vrun c s ops = Some sf -> ends_early_from c s ops = false -> vrun_strict c s ops = Some sf.
+Proof.
+  induction ops as [|o r IH]; intros s sf; cbn [vrun ends_early_from vrun_strict]; auto.
+  destruct (vs_ctrls s); [discriminate|]. destruct (vstep c s o) as [s1|]; [|discriminate]. apply IH.
+Qed.
+
+(** [validate_sound]: an accepted body that does not continue after the end of the function is an
+    expression, well typed in the function's context. *)
+Theorem validate_sound_thm c ops h :
+  validate_func c ops = Some h -> ends_early c ops = false ->
+  exists is, structure_body (map fst ops) = Some is /\ body_ok (tctx_of c) is.
+Proof.
+  unfold validate_func, ends_early. destruct (vrun c (vinit c) ops) as [sf|] eqn:HR; [|discriminate].
+  destruct (vs_ctrls sf) eqn:HF; [|discriminate]. intros _ HE.
+  apply (validate_strict_sound c ops (vs_max sf)). unfold validate_func_strict.
+  rewrite (vrun_strict_of_vrun _ _ _ _ HR HE), HF. reflexivity.
+Qed.
+
+(** The faithful model accepts the body [end; nop] (as the implementation does): it is not an
+    expression of the binary grammar. *)
+Definition kf_ctx : vctx :=
+  {| vc_types := []; vc_funcs := []; vc_globals := []; vc_locals := []; vc_memory := false;
+     vc_table := false; vc_return := None; vc_signext := true |}.
+Theorem validate_sound_refuted_thm :
+  exists c ops h, validate_func c ops = Some h /\ structure_body (map fst ops) = None /\ ends_early c ops = true.
+Proof. exists kf_ctx, [(OEnd, 0%N); (OBasic BNop, 0%N)], O. vm_compute. auto. Qed.
+
+(** alignment of every memory instruction of an accepted body is at most the natural one *)
+Definition vop_align_ok (o : opcode * N) : bool :=
+  match fst o with
+  | OBasic (BLoad t pk _) => (snd o <=? max_align (load_width t pk))%N
+  | OBasic (BStore t pk _) => (snd o <=? max_align (store_width t pk))%N
+  | _ => true
+  end.
+Lemma vstep_align c s o s' : vstep c s o = Some s' -> vop_align_ok o = true.
+Proof.
+  destruct o as [op al]. unfold vstep, vop_align_ok. cbn [fst snd]. destruct op as [| | | | |b]; auto.
+  destruct b; auto; cbn [vstep_basic]; intros H.
+  - bind H. bind H. bind H. grd E1. exact E1.
+  - bind H. bind H. bind H. grd E1. exact E1.
+Qed.
+Theorem validate_alignment c ops h : validate_func c ops = Some h -> forallb vop_align_ok ops = true.
+Proof.
+  unfold validate_func. destruct (vrun c (vinit c) ops) as [sf|] eqn:HR; [|discriminate]. intros _.
+  revert HR. generalize (vinit c). induction ops as [|o r IH]; intros s; cbn [vrun forallb]; auto.
+  destruct (vstep c s o) as [s1|] eqn:EV; [|discriminate]. intros HR.
+  rewrite (vstep_align _ _ _ _ EV). cbn. eauto.
+Qed.
+
+(** ** Module level *)
+Theorem validate_module_sound_thm signext m :
+  validate_module signext m = true ->
+  forall f, In f (vm_funcs m) ->
+  exists ft locals h,
+    nth_error (vm_types m) (mf_type f) = Some ft /\
+    make_locals (ft_params ft) (mf_locals f) = Some locals /\
+    validate_func (func_ctx signext m ft locals) (mf_body f) = Some h /\
+    (N.of_nat (length locals) + N.of_nat h <= MAX_ALLOWED_STACK_HEIGHT)%N /\
+    forallb vop_align_ok (mf_body f) = true /\
+    (ends_early (func_ctx signext m ft locals) (mf_body f) = false ->
+     exists is, structure_body (map fst (mf_body f)) = Some is /\
+                body_ok (tctx_of (func_ctx signext m ft locals)) is).
+Proof.
+  intros H f Hin. unfold validate_module in H. rewrite !andb_true_iff in H.
+  destruct H as [[[[[[[[[_ _] _] _] Hfun] _] _] _] _] _].
+  rewrite forallb_forall in Hfun. specialize (Hfun _ Hin).
+  unfold validate_mfunc, obind in Hfun.
+  destruct (nth_error (vm_types m) (mf_type f)) as [ft|] eqn:ET; [|discriminate].
+  destruct (make_locals (ft_params ft) (mf_locals f)) as [locals|] eqn:EL; [|discriminate].
+  destruct (validate_func _ _) as [h|] eqn:EV; [|discriminate].
+  unfold guard in Hfun.
+  destruct (N.leb_spec (N.of_nat (length locals) + N.of_nat h) MAX_ALLOWED_STACK_HEIGHT); [|discriminate].
+  exists ft, locals, h. split; [reflexivity|]. split; [exact EL|]. split; [exact EV|]. split; [assumption|]. split.
+  - eapply validate_alignment; eauto.
+  - intros HE. eapply validate_sound_thm; eauto.
+Qed.
+
+(** non-vacuity: a body with nested control, a branch with a value and dead code *)
+Definition ex_ctx : vctx :=
+  {| vc_types := [ {| ft_params := [T_i32]; ft_result := Some T_i32 |} ]; vc_funcs := [O];
+     vc_globals := [(T_i64, true)]; vc_locals := [T_i32; T_i64]; vc_memory := true;
+     vc_table := false; vc_return := Some T_i32; vc_signext := true |}.
+Definition ex_body : list (opcode * N) :=
+  [ (OBlock (Some T_i32), 0); (OBasic (BLocalGet 0), 0); (OIf None, 0);
+    (OBasic (BConst T_i32 7), 0); (OBasic (BBr 1), 0); (OBasic BSelect, 0); (OBasic BDrop, 0);
+    (OElse, 0); (OBasic (BGlobalGet 0), 0); (OBasic (BLocalSet 1), 0); (OEnd, 0);
+    (OBasic (BConst T_i32 0), 0); (OBasic (BLoad T_i32 None 4), 2); (OEnd, 0);
+    (OBasic (BCall 0), 0); (OEnd, 0) ]%N.
+Example validate_sound_nonvacuous :
+  validate_func ex_ctx ex_body = Some 1%nat /\ ends_early ex_ctx ex_body = false.
+Proof. vm_compute. auto. Qed.
